@@ -258,6 +258,34 @@ func c13Recover(c *core.Ctx) {
 		okTB = alts["("+meta+".FromBlock + conv:uint64("+meta+".Offset))"] && alts[meta+".ToBlock"] && len(alts) == 2
 	}
 	c.Decide(okTB, rule, "statuschecker.newCertificateInfoFromAgglayerCertHeader#ToBlock", fn.Pos(), "ToBlock ← FromBlock+Offset (v1/v2) or the v0 ToBlock: "+g("ToBlock"))
+	// each alternative under its metadata version only
+	if okTB {
+		if phi, ok := tb.Val.(*ssa.Phi); ok {
+			ver := func(k string) []core.IfEdge {
+				return core.TermEdges(fn, sx, func(s string, _ *core.Term) bool { return s == "("+meta+".Version == const("+k+"))" }, true)
+			}
+			okV := true
+			for k, e := range phi.Edges {
+				pred := phi.Block().Preds[k]
+				si := 0
+				for j, sc := range pred.Succs {
+					if sc == phi.Block() {
+						si = j
+					}
+				}
+				rc := core.RetCase{Pred: pred, Succ: si}
+				switch sx.Of(e).String() {
+				case meta + ".ToBlock":
+					okV = okV && rc.ReachableOnlyVia(fn, ver("0"))
+				default:
+					okV = okV && rc.ReachableOnlyVia(fn, append(ver("1"), ver("2")...))
+				}
+			}
+			c.Decide(okV, rule, "statuschecker.newCertificateInfoFromAgglayerCertHeader#ToBlock-per-version", fn.Pos(), "the v0 ToBlock is used only for metadata version 0, FromBlock+Offset only for versions 1 and 2 (a one-block certificate has Offset 0)")
+		} else {
+			c.Undecide(rule, "statuschecker.newCertificateInfoFromAgglayerCertHeader#ToBlock-per-version", fn.Pos(), "ToBlock is not a merge of per-version values")
+		}
+	}
 	// the v0 form only for version 0
 	// previous LER copied when present
 	okPrev := false
